@@ -25,7 +25,7 @@
 (*         (1e-5 full scale^2), pk peeked decoder control state after the call  *)
 (***************************************************************************)
 EXTENDS Link, Json, IOUtils, TLC
-CONSTANTS M1, M2, M2After, M3Num, M3Den, M4,      \* calibrated thresholds (centi-dB; M3 as a ratio of energies), R3
+CONSTANTS M1, M2, M2After, M2Late, M2LateAfter, M3Num, M3Den, M4,      \* calibrated thresholds (centi-dB; M3 as a ratio of energies), R3
           LevelFloorNeg,                  \* level clauses only above this level (negated centi-dB), R2
           MinFecFrames,                   \* M3 is judged per stream once that many frames were recovered
           CheckM3, CheckM4                \* clauses that calibration left in force
@@ -116,8 +116,12 @@ RxWhy(e) ==
   ELSE IF Decodes(e) /\ e.dr # e.er THEN <<"final range of a received packet", e.er, e.dr>>     \* received packets unaffected
   ELSE IF conceals /\ Level >= LevelFloor /\ e.lv > Level + M1
        THEN <<"concealment exceeds the recent level", e.lv, Level, M1>>
-  ELSE IF conceals /\ Level >= LevelFloor /\ w.run >= M2After /\ e.lv > Level - M2 /\ e.lv > LevelFloor - M2
+  \* (asserted for the MDCT layer's concealment only: the speech layer's comfort noise keeps the level of whatever
+  \*  its activity detector took for background - measured: no decay at all over 10 s - see the calibration notes)
+  ELSE IF conceals /\ Level >= LevelFloor /\ w.run >= M2After /\ D!PlcMode(w.d) = MODE_CELT /\ e.lv > Level - M2 /\ e.lv > LevelFloor - M2
        THEN <<"concealment does not decay under sustained loss", e.lv, Level, w.run>>
+  ELSE IF conceals /\ Level >= LevelFloor /\ w.run >= M2LateAfter /\ D!PlcMode(w.d) = MODE_CELT /\ e.lv > Level - M2Late /\ e.lv > LevelFloor - M2Late
+       THEN <<"concealment does not decay under sustained loss (late)", e.lv, Level, w.run>>
   ELSE <<>>
 
 TWhy(e) ==
@@ -162,7 +166,7 @@ Step(e) ==
                   good == Decodes(e)
                   rec == FecRecovers(e) /\ acc.nf < 4000
                   c1 == ~good /\ ~FecRecovers(e) /\ Level >= LevelFloor
-                  c2 == c1 /\ w.run >= 160
+                  c2 == c1 /\ w.run >= 160 /\ D!PlcMode(w.d) = MODE_CELT
                   units == e.r \div Qo IN
               IF why # <<>> THEN Reject(why)
               ELSE /\ w' = [w EXCEPT !.pos = w.pos + units,
@@ -181,8 +185,8 @@ Step(e) ==
                                          !.n1 = IF c1 /\ acc.n1 < 1000000 THEN acc.n1 + 1 ELSE acc.n1,
                                          !.o2 = IF c2 THEN Mx(acc.o2, e.lv - Mx(Level, LevelFloor)) ELSE acc.o2,
                                          !.n2 = IF c2 /\ acc.n2 < 1000000 THEN acc.n2 + 1 ELSE acc.n2,
-                                         !.o2b = IF c1 /\ w.run >= 400 THEN Mx(acc.o2b, e.lv - Mx(Level, LevelFloor)) ELSE acc.o2b,
-                                         !.o2c = IF c1 /\ w.run >= 800 THEN Mx(acc.o2c, e.lv - Mx(Level, LevelFloor)) ELSE acc.o2c]
+                                         !.o2b = IF c2 /\ w.run >= 400 THEN Mx(acc.o2b, e.lv - Mx(Level, LevelFloor)) ELSE acc.o2b,
+                                         !.o2c = IF c2 /\ w.run >= 800 THEN Mx(acc.o2c, e.lv - Mx(Level, LevelFloor)) ELSE acc.o2c]
                    /\ (IF Conforms(e) THEN TRUE ELSE Drift(<<"decoder control state", e.t, e.pk>>))
                    /\ l' = l + 1 /\ UNCHANGED cf
     [] e.k = "endW" ->
